@@ -17,9 +17,12 @@ use discv5::verif::{
 use discv5::{ConfigBuilder, ConnectionDirection, IpMode, ListenConfig, NodeAddress, NodeContact, RequestId};
 use serde_json::{json, Map, Value};
 use std::collections::HashMap;
+use std::sync::Mutex;
 use std::net::{Ipv4Addr, SocketAddr};
 
 use std::time::Duration;
+
+static ALL_IDN: Mutex<Option<HashMap<Vec<u8>, Vec<u8>>>> = Mutex::new(None);
 
 type Enr = GEnr<CombinedKey>;
 pub const TICK_MS: u64 = 1000; // one model tick of handler (tokio) time
@@ -348,6 +351,13 @@ impl World {
                     let echo = self.intern.known('m', &pv.nonce).or_else(|| self.intern.known('n', &pv.nonce)).unwrap_or_else(|| "?".into());
                     o.insert("kind".into(), json!("way"));
                     o.insert("idn".into(), json!(idn));
+                    // process-wide ledger: was this id-nonce already used by a different WHOAREYOU datagram of this run?
+                    let rep = {
+                        let mut g = ALL_IDN.lock().unwrap();
+                        let first = g.get_or_insert_with(HashMap::new).entry(id_nonce.to_vec()).or_insert_with(|| bytes.to_vec());
+                        first.as_slice() != &bytes[..]
+                    };
+                    o.insert("idnrep".into(), json!(rep));
                     o.insert("echo".into(), json!(echo));
                     o.insert("enrseq".into(), json!(enr_seq));
                     o.insert("n".into(), json!("none"));
